@@ -166,7 +166,17 @@ def run(prog, rep, tier):
     # ---- TOL
     raises = [r for r in S.select("raise", qname=Q) if r.exctype == "ValueError"]
     shuffles = [c for c in S.select("call", qname=Q) if c.callkind == "method" and c.target == ".shuffle"]
-    if len(raises) != 1 or len(raises[0].path) != 1:
+    # an assertion on the arguments in front of the guard is a second, undocumented rejection (AssertionError instead of the ValueError, or for
+    # vectors the guard accepts)
+    pre = [a_ for fct in S.facts if fct.qname == Q for a_ in getattr(fct, "asserts", ()) if any(x == RAT or x == DATA for x in walk(a_[0]))
+           and not any(isinstance(x, tuple) and x[:1] in (("after",), ("mu",)) for x in walk(a_[0]))]
+    pre = [a_ for k_, a_ in enumerate(pre) if a_ not in pre[:k_]]
+    shuffle_order = min([c.order for c in shuffles] or [10**9])
+    early = [a_ for a_ in pre if any(a_ in getattr(c, "asserts", ()) for c in shuffles)]
+    if early:
+        rep.bad("TOL.guard", fwhere(f), "an assertion on the arguments (`%s`) stands before the data are split: vectors it does not hold for are rejected with an AssertionError "
+                "the property does not provide for" % pred_fmt(npred(early[0][0], early[0][1]))[:80])
+    elif len(raises) != 1 or len(raises[0].path) != 1:
         if len(raises) == 1 and len(raises[0].path) > 1:
             rep.bad("TOL.guard", fwhere(f, raises[0].node), "the ratio-sum guard is reached only past another check (%s): vectors that fail it get a different exception "
                     "(or none) instead of the ValueError" % "; ".join(pred_fmt(npred(c, p_))[:60] for c, p_ in raises[0].path[:-1]))
